@@ -2,6 +2,7 @@ import ConfModel.Driver.Common
 import ConfModel.Model.Echo
 import ConfModel.Spec.EchoAgree
 import ConfModel.Model.EchoLoad
+import ConfModel.Spec.EchoExplicit
 namespace ConfModel.Driver.C02
 open Lean ConfModel.Driver ConfModel.Echo
 
@@ -60,6 +61,16 @@ def tcOf (j : Json) : TC :=
       | "idempotent" => .idempotent | "unimplemented" => .unimplemented | _ => .std),
     explicit := if isNull (field j "explicit") then none else some (resultOf (field j "explicit")) }
 
+/-- `http_status_code` of a result in the input / output (absent = not set) -/
+def statusOf (j : Json) : Option Nat := if isNull (field j "status") then none else some (nat (field j "status"))
+
+/-- the full test case: `expected_response.http_status_code`, `other_allowed_error_codes` -/
+def xtcOf (j : Json) : XTC :=
+  ⟨tcOf j, (if isNull (field j "explicit") then none else statusOf (field j "explicit")), natList (field j "otherCodes")⟩
+
+/-- a stored expectation as the harness reports it -/
+def expectationOf (res codes : Json) : Expectation := ⟨resultOf res, statusOf res, natList codes⟩
+
 def hdrJ (h : Hdr) : Json := Json.mkObj [("n", h.name), ("v", toJson h.vals)]
 def infoJ : Option ReqInfo → Json
   | none => Json.null
@@ -93,10 +104,16 @@ def permCase (cases getCases : List TC) (p : Json) : Option TC :=
 
 /-- what the model says about the verdict of a permutation whose expectation is `e`:
 `some true` = passes whichever way error metadata is delivered, `some false` = fails either way -/
-def predicted (tc : TC) (e : Result) : Option Bool :=
-  let a := agree tc.st e (actual tc (idWire tc) false)
-  let b := agree tc.st e (actual tc (idWire tc) true)
+def predictedX (tc : TC) (ex : Expectation) : Option Bool :=
+  let a := agreeX tc.st ex (actual tc (idWire tc) false) none
+  let b := agreeX tc.st ex (actual tc (idWire tc) true) none
   if a && b then some true else if !a && !b then some false else none
+
+/-- the e2e suites state no HTTP status (which status the peers answer with is not C02's subject):
+`predictedX` holds the stored expectation against a result without one -/
+def permCaseX (cases getCases : List XTC) (p : Json) : Option XTC :=
+  (if bool (field p "g") then getCases[nat (field p "case")]? else cases[nat (field p "case")]?).map
+    (fun x => { x with tc := { x.tc with codec := if nat (field p "codec") == 2 then .json else .proto } })
 
 /-- the peers' model against a captured client response (the wording of an `unimplemented` error is
 the RPC library's: not compared).  Query parameters: echoed exactly for the calls that go out as GET,
@@ -112,26 +129,31 @@ def actualMatches (tc : TC) (a : Result) : Bool :=
 def judgeE2E (inp impl : Json) : Verdict :=
     if !(isNull (field impl "panic")) then
       { agree := false, holds := false, why := "panic during the run: " ++ str (field impl "panic") } else
-    let cases := (arr (field inp "cases")).map tcOf
-    let getCases := (arr (field inp "getCases")).map tcOf
+    let xcases := (arr (field inp "cases")).map xtcOf
+    let xgetCases := (arr (field inp "getCases")).map xtcOf
+    let cases := xcases.map (·.tc)
+    let getCases := xgetCases.map (·.tc)
     let perms := arr (field impl "perms")
     let wf := (cases ++ getCases).all (fun tc => WellFormed tc)
+    if (xcases ++ xgetCases).any (fun x => x.status.isSome) then bad "e2e case with an explicit http_status_code" else
     -- the generator's hint "wrong on purpose" must be the model's prediction (it only saves re-runs)
     let hintOk := (arr (field inp "cases") ++ arr (field inp "getCases")).all (fun j =>
-      let tc := tcOf j
-      let both := [Codec.proto, Codec.json].map (fun c => let t := { tc with codec := c }; (populate t).bind (predicted t))
+      let x := xtcOf j
+      let tc := x.tc
+      let both := [Codec.proto, Codec.json].map (fun c => let t := { tc with codec := c }; (populateX { x with tc := t }).bind (predictedX t))
       if bool (field j "xfail") then both.all (· == some false) else both.all (· == some true) || tc.explicit.isNone)
     if !hintOk then bad "xfail hint of a case differs from the model's prediction" else
     -- property: every permutation of every well-formed case passes; a case that gives its expected
     -- response itself gets the verdict that response deserves (it is used as given)
     let failing0 := perms.filter (fun p =>
       let pass := str (field p "verdict") == "pass"
-      match permCase cases getCases p with
+      match permCaseX xcases xgetCases p with
       | none => !pass
-      | some tc =>
-        match tc.explicit with
-        | none => !pass
-        | some e => (match predicted tc e with | some v => pass != v | none => false))
+      | some x =>
+        match x.tc.explicit, populateX x with
+        | none, _ => !pass
+        | some _, none => !pass
+        | some _, some ex => (match predictedX x.tc ex with | some v => pass != v | none => false))
     -- known finding F22 (schedule-dependent): the grpc-go reference server behind the grpc-web
     -- wrapper over HTTP/1.1 intermittently fails a call with "http: invalid Read on closed Body"
     let isF22 (p : Json) : Bool :=
@@ -200,10 +222,11 @@ def allCases (inp : Json) : List TC := ((arr (field inp "cases")) ++ (arr (field
 def handle : Handler := fun op inp impl =>
   match op with
   | "expected" =>
-    let tc := tcOf inp
+    let x := xtcOf inp
+    let tc := x.tc
     if !(isNull (field impl "panic")) then
       { agree := false, holds := false, why := "panic while deriving the expectation: " ++ str (field impl "panic") } else
-    let m := populate tc
+    let m := populateX x
     let implErr := str (field impl "err") != ""
     match m with
     | none =>
@@ -212,14 +235,52 @@ def handle : Handler := fun op inp impl =>
         cls := str (field inp "st") ++ ":rejected", why := if implErr then "" else "generator accepted a case the model rejects" }
     | some m =>
       if implErr then { agree := false, holds := true, why := "generator returned an error" } else
-      let r := resultOf (field impl "result")
-      { agree := r == m, holds := true, nontrivial := tc.udef.isSome || tc.sdef.isSome || tc.explicit.isSome, model := resultJ m,
+      let r := expectationOf (field impl "result") (field impl "otherCodes")
+      -- the property's own predicate on the implementation's output: a given expectation is what is
+      -- stored (result, status), the other allowed codes are where they were, a derived one has no status
+      let kept := (match tc.explicit with
+        | some e => r.result == e && r.status == x.status
+        | none => r.status.isNone) && r.otherCodes == x.otherCodes
+      { agree := r == m, holds := kept, nontrivial := tc.udef.isSome || tc.sdef.isSome || tc.explicit.isSome, model := resultJ m.result,
+        why := if kept then "" else "an expected response given by the suite (or its status / the other allowed codes) was not kept as given",
         cls := str (field inp "st") ++ (if tc.explicit.isSome then ":explicit" else if tc.get then ":get" else "") }
+  | "assertx" =>
+    if !(isNull (field impl "panic")) then
+      { agree := false, holds := false, why := "panic in populateExpectedResponse / assert: " ++ str (field impl "panic") } else
+    let x := xtcOf (field inp "tc")
+    let a := resultOf (field inp "actual")
+    let aStatus := statusOf (field inp "actual")
+    let implErr := str (field impl "err") != ""
+    (match populateX x with
+    | none => { agree := implErr, holds := true, nontrivial := true, cls := "rejected",
+                why := if implErr then "" else "generator accepted a case the model rejects" }
+    | some ex =>
+      if implErr then { agree := false, holds := true, why := "generator returned an error" } else
+      let stored := expectationOf (field impl "stored") (field impl "otherCodes")
+      let pass := bool (field impl "pass")
+      let want := agreeX x.tc.st ex a aStatus
+      -- the property's predicates on the implementation's output: what `assert` used is what the suite
+      -- gave (kept); a status named on both sides and different never passes; an error on one side only
+      -- never passes, whatever the other allowed codes
+      let kept := match x.tc.explicit with
+        | some e => stored.result == e && stored.status == x.status && stored.otherCodes == x.otherCodes
+        | none => stored.status.isNone && stored.otherCodes == x.otherCodes
+      let sharp := !(pass && (!(statusAgree stored.status aStatus) || stored.result.err.isSome != a.err.isSome))
+      { agree := bool (field impl "recorded") && pass == want && stored == ex, holds := kept && sharp, nontrivial := x.tc.explicit.isSome,
+        model := Json.mkObj [("pass", want)],
+        cls := (if x.tc.explicit.isSome then "explicit" else "derived") ++ (if want then ":pass" else ":fail") ++
+               (if ex.status.isSome && aStatus.isSome then ":status" else "") ++ (if ex.otherCodes.isEmpty then "" else ":codes"),
+        why := if !kept then "the expectation assert used is not the one the suite gave"
+          else if !sharp then "assert passed a result with another HTTP status / with an error on one side only"
+          else if pass == want then (if stored == ex then "" else "stored expectation differs from the model's")
+          else s!"assert verdict pass={pass}, the model of assert on the stored expectation says {want}" })
   | "libexpected" =>
     if !(isNull (field impl "panic")) then
       { agree := false, holds := false, why := "panic while loading the suites: " ++ str (field impl "panic") } else
-    let cases := (arr (field inp "cases")).map tcOf
-    let getCases := (arr (field inp "getCases")).map tcOf
+    let xcases := (arr (field inp "cases")).map xtcOf
+    let xgetCases := (arr (field inp "getCases")).map xtcOf
+    let cases := xcases.map (·.tc)
+    let getCases := xgetCases.map (·.tc)
     let implErr := str (field impl "err") != ""
     -- a case nothing can be derived for makes the whole load fail (every case of these inputs has
     -- permutations under the config)
@@ -229,14 +290,15 @@ def handle : Handler := fun op inp impl =>
         why := if rejected == implErr then "" else "load verdict differs from the model (a case without a derivable or given expectation must be rejected, and only that)" } else
     let perms := arr (field impl "perms")
     let wrong := perms.filter (fun p =>
-      match permCase cases getCases p with
+      match permCaseX xcases xgetCases p with
       | none => true
-      | some tc =>
+      | some x =>
+        let tc := x.tc
         let wantMethod := match tc.method, tc.st with
           | .idempotent, _ => "IdempotentUnary" | .unimplemented, _ => "Unimplemented"
           | .std, .unary => "Unary" | .std, .clientStream => "ClientStream" | .std, .serverStream => "ServerStream"
           | .std, _ => "BidiStream"
-        !(populate tc == (if isNull (field p "expected") then none else some (resultOf (field p "expected"))) &&
+        !(populateX x == (if isNull (field p "expected") then none else some (expectationOf (field p "expected") (field p "otherCodes"))) &&
           bool (field p "get") == tc.get && str (field p "method") == wantMethod &&
           str (field p "service") == "connectrpc.conformance.v1.ConformanceService"))
     { agree := wrong.isEmpty && !perms.isEmpty, holds := true, nontrivial := true, cls := str (field inp "mode"),
